@@ -134,18 +134,109 @@ def flag_assignments(ctx, key, rid, fields):
     return out, f
 
 
+def bookkeeping_table(ctx, key, rid, fields):
+    """truth table of the castling-right bookkeeping of make / unmake: for every assignment of the four rights
+    predicates of the move, the effect on each (tuple element, flag) field: 'set-true' / 'set-false' / 'unchanged'.
+    Built from ALL paths of the (loop-free) function, so any way of writing the update is understood."""
+    from ..paths import returning_paths, NotLoopFree
+    from ..expr import fold, Unfoldable, subst
+    from itertools import product
+    prog = ctx.prog
+    f = ctx.fn(rid, key)
+    getter_of = {v["getter"]: n for n, v in fields.items()}
+    pred_of = {}
+    for k, g in prog.fns.items():
+        if k.startswith(MF.MOVE) and k not in getter_of:
+            called = [b["term"]["callee"].get("key") for b in g["blocks"] if b["term"]["k"] == "call"]
+            gs = [getter_of[c] for c in called if c in getter_of]
+            if len(gs) == 1 and len(called) == 1:
+                pred_of[k] = gs[0]
+    rights = sorted(n for n in fields if "lost" in n)
+    if len(rights) != 4:
+        return None, f, "four rights-lost fields (found %s)" % rights
+    try:
+        pes = returning_paths(f, limit=50000)
+    except (NotLoopFree, OverflowError) as e:
+        return None, f, "not loop-free / too many paths (%s)" % e
+
+    def pred_name(t):
+        if t[0] == "call" and t[1] in pred_of and pred_of[t[1]] in rights:
+            return pred_of[t[1]]
+        if t[0] == "call" and t[1] in getter_of and getter_of[t[1]] in rights:
+            return getter_of[t[1]]
+        return None
+    table = {}
+    problems = []
+    for pe in pes:
+        known = {}
+        for (d, c, b, ty) in pe.conds:
+            n = pred_name(d)
+            if n is None and d[0] == "bin" and d[1] in ("Ne", "Eq"):
+                # get_x() != 0
+                for side in (d[2], d[3]):
+                    if pred_name(side):
+                        n = pred_name(side)
+                        truth = (c != ("in", (0,)))
+                        known[n] = truth if d[1] == "Ne" else not truth
+                        n = None
+                continue
+            if n is not None:
+                known[n] = c != ("in", (0,))
+        # final writes to *_castle fields on this path
+        eff = {}
+        for place, val, b in pe.writes:
+            if place[0] == "f" and place[2].endswith("_castle"):
+                owner = place[1]
+                role = None
+                for x in leaves(owner):
+                    if x[0] == "f" and x[1][0] == "call" and x[1][1].endswith("get_active_and_passive_mut"):
+                        role = x[2]
+                eff[(role, place[2])] = (place, val)
+        for assign in product((False, True), repeat=4):
+            a = dict(zip(rights, assign))
+            if any(a[n] != v for n, v in known.items()):
+                continue
+            row = {}
+            for (role, flag), (place, val) in eff.items():
+                res = []
+                for old in (0, 1):
+                    env = {place: old}
+                    m = {}
+                    for x in leaves(val):
+                        n = pred_name(x)
+                        if n is not None:
+                            m[x] = ("c", int(a[n]), "bool", None)
+                    v2 = subst(val, m) if m else val
+                    try:
+                        res.append(fold(v2, env) & 1)
+                    except Unfoldable:
+                        res.append(None)
+                row[(role, flag)] = {(0, 0): "set-false", (1, 1): "set-true", (0, 1): "unchanged"}.get(tuple(res), "other:%s" % (res,))
+            key_a = tuple(assign)
+            if key_a in table and table[key_a] != row:
+                problems.append("the effect on the castling rights for predicate values %s depends on something else: %s vs %s" % (a, table[key_a], row))
+            table.setdefault(key_a, row)
+    if len(table) != 16:
+        problems.append("only %d of 16 predicate assignments are covered by paths" % len(table))
+    return (rights, table, problems), f, None
+
+
 def r3_flag_mirror(ctx, fields):
     rid = "C03.R3"
-    ctx.rule(rid, "each castling-right flag cleared by make under a Move predicate is set by unmake under the same predicate, on the same flag field, for the same player role relative to the turn switch", floor=4)
-    am, fm = flag_assignments(ctx, BB + "make", rid, fields)
-    au, fu = flag_assignments(ctx, BB + "unmake", rid, fields)
-    if len(am) < 4 or len(au) < 4:
-        ctx.lost(rid, "castling-right assignments in make/unmake (found %d/%d, expected 4/4)" % (len(am), len(au)))
+    ctx.rule(rid, "for every assignment of the move's four rights-lost predicates: make clears exactly the flags whose predicate holds, and unmake sets exactly the same flags (same player relative to the turn switch) again - full truth table over all paths", floor=16)
+    tm, fm, err1 = bookkeeping_table(ctx, BB + "make", rid, fields)
+    tu, fu, err2 = bookkeeping_table(ctx, BB + "unmake", rid, fields)
+    if tm is None or tu is None:
+        ctx.lost(rid, "castling-right bookkeeping of make/unmake: %s" % (err1 or err2))
+        return
+    rights, table_m, prob_m = tm
+    _, table_u, prob_u = tu
+    for p_ in prob_m + prob_u:
+        ctx.ob(rid, "deterministic", False, p_, ctx.where(fu))
+    if prob_m or prob_u:
         return
 
-    # role: in `make` the tuple comes after turn is still the mover's? resolve by position of the turn flip
     def turn_flipped_before_players(f):
-        """does `turn = opposite...` precede get_active_and_passive_mut in block order on the entry path?"""
         cfg = Cfg(f)
         flip_b = players_b = None
         for b in sorted(cfg.reach):
@@ -158,34 +249,40 @@ def r3_flag_mirror(ctx, fields):
                 players_b = b if players_b is None else players_b
         if flip_b is None or players_b is None:
             return None
-        # statements precede the terminator, so the same block counts as "before"
         return cfg.dominates(flip_b, players_b)
     fl_m, fl_u = turn_flipped_before_players(fm), turn_flipped_before_players(fu)
     if fl_m is None or fl_u is None:
         ctx.lost(rid, "turn flip / get_active_and_passive_mut ordering in make or unmake")
         return
-    # mover's tuple element: make is entered with turn = mover; unmake with turn = opponent
-    mover_m = "1" if fl_m else "0"      # flipped before: active = opponent, mover is element 1
-    mover_u = "0" if fl_u else "1"      # unmake: flipped before -> turn = mover again -> mover is element 0
+    mover_m = "1" if fl_m else "0"
+    mover_u = "0" if fl_u else "1"
 
-    def norm(a, mover):
-        pr = sorted(p for p, _ in a["pred"])
-        who = "mover" if a["role"] == mover else "opponent" if a["role"] is not None else "?"
-        return (tuple(pr), who, a["flag"])
-    sm = {norm(a, mover_m): a for a in am}
-    su = {norm(a, mover_u): a for a in au}
-    for k in sorted(set(sm) | set(su), key=str):
-        a, b = sm.get(k), su.get(k)
-        ok = a is not None and b is not None and a["value"] is False and b["value"] is True
-        ctx.ob(rid, "flag:%s|%s|%s" % (",".join(k[0]), k[1], k[2]), ok,
-               "" if ok else "castling-right bookkeeping does not mirror: predicate %s, player %s, flag %s: make assigns %s, unmake assigns %s"
-               % (k[0], k[1], k[2], a["value"] if a else "nothing", b["value"] if b else "nothing"),
-               ctx.where(fu, (b or a)["line"]), sample={"predicate": k[0], "player": k[1], "flag": k[2]})
-
-
-    combos = {(k[1], k[2]) for k in sm}
-    ok = len(combos) == 4 and len(sm) == 4
-    ctx.ob(rid, "four-distinct-rights", ok, "" if ok else "the four rights predicates do not address four distinct (player, side) flags: %s" % sorted(sm, key=str), ctx.where(fm))
+    def norm(row, mover):
+        return {("mover" if role == mover else "opponent", flag): eff for (role, flag), eff in row.items() if eff != "unchanged"}
+    cleared_by = {}
+    for assign in sorted(table_m):
+        a = dict(zip(rights, assign))
+        rm, ru = norm(table_m[assign], mover_m), norm(table_u.get(assign, {}), mover_u)
+        ok = all(v == "set-false" for v in rm.values()) and all(v == "set-true" for v in ru.values()) and set(rm) == set(ru)
+        label = "".join("1" if x else "0" for x in assign)
+        ctx.ob(rid, "row:%s" % label, ok,
+               "" if ok else "a move with %s: make clears %s but unmake restores %s - after make+unmake the castling rights differ"
+               % ({n.replace("get_", ""): v for n, v in a.items() if v}, sorted("%s.%s" % k for k in rm) or "nothing", sorted("%s.%s=%s" % (k[0], k[1], v) for k, v in ru.items()) or "nothing"),
+               ctx.where(fu), sample={"predicates": a, "make_clears": sorted("%s.%s" % k for k in rm), "unmake_sets": sorted("%s.%s" % k for k in ru)} if sum(assign) == 1 else None)
+        if sum(assign) == 1:
+            n = [x for x, v in a.items() if v][0]
+            cleared_by[n] = sorted(rm)
+    # each predicate alone clears exactly one flag, the four are distinct, and combinations are the unions
+    single = {n: v for n, v in cleared_by.items()}
+    ok = all(len(v) == 1 for v in single.values()) and len({tuple(v) for v in single.values()}) == 4
+    ctx.ob(rid, "four-distinct-rights", ok, "" if ok else "single predicates clear %s (expected one distinct (player, side) flag each)" % single, ctx.where(fm), sample={n: v for n, v in single.items()})
+    if ok:
+        for assign in sorted(table_m):
+            a = dict(zip(rights, assign))
+            want = sorted(single[n][0] for n, v in a.items() if v)
+            got = sorted(norm(table_m[assign], mover_m))
+            if want != got:
+                ctx.ob(rid, "union:%s" % "".join("1" if x else "0" for x in assign), False, "make with %s clears %s, expected %s" % (a, got, want), ctx.where(fm))
 
 
 def r3_castle_swap(ctx):
